@@ -177,6 +177,10 @@ let dispatch op r =
       let gr = integer r in
       let g = List.init gr (fun _ -> let gc = integer r in List.init gc (fun _ -> rd_block r)) in
       put_res put_mat (mat_block fops g)
+  | "blockm" ->
+      let gr = integer r in
+      let g = List.init gr (fun _ -> let gc = integer r in List.init gc (fun _ -> rd_mat r)) in
+      put_res put_mat (mat_block fops g)
   (* ---- the laws of the property, both sides computed by the same spellings ---- *)
   | "law_trprod" -> let a = rd_mat r in let b = rd_mat r in
       put_res put_mat (m_product fops a b >>= transpose fops);
